@@ -16,6 +16,8 @@ def check(rep):
     LR.rule_tokens_have_rules(ctx)
     LR.rule_id_total(ctx)
     LR.rule_token_spelling(ctx, rid="C07.TOKEN-SPELLING", directions=("doc<=lexer",))
+    # white space of any kind between tokens is part of a grammatical text: it must be skipped, not refused
+    LR.rule_trivia_start(ctx, rid="C07.WHITESPACE-SKIPPED")
     from . import evalrules as ER
     # a lexer kept between compilations stays in whatever state the previous text left it (e.g. inside a comment)
     ER.rule_fresh_per_parse(ctx, rid="C07.FRESH-LEXER-PER-PARSE", kinds=("Lexer",))
